@@ -374,6 +374,8 @@ func (w *world) roleOf(a common.Address) string {
 		return "account C"
 	case txkit.D.Addr:
 		return "account D"
+	case whale.Addr:
+		return "account E (whale)"
 	case collector:
 		return "fee collector"
 	case common.EmptyAddress:
@@ -596,7 +598,7 @@ func acceptKey(t *txMeta, where string) string {
 // ---- tampered variants of a valid confidential transaction ----------------------------------------------------
 
 func accountByAddr(a common.Address) *txkit.Account {
-	for _, x := range []*txkit.Account{txkit.A, txkit.B, txkit.C, txkit.D} {
+	for _, x := range []*txkit.Account{txkit.A, txkit.B, txkit.C, txkit.D, whale} {
 		if x.Addr == a {
 			return x
 		}
